@@ -769,3 +769,37 @@ def abandon_programs(rng, flavour, n):
                 prog.append({"op": "metadata", "fl": "sync", "key": op["key"]})
         prog.append({"op": "list"})
         yield prog
+
+
+STRENGTH = ["sha512", "sha384", "sha256", "sha1"]          # the reference (npm cacache / ssri) picks the strongest
+
+def ref_cache_programs(rng, flavour, n):
+    """C17: a complete cache written by the reference implementation — index record plus content file; the integrity may
+    list several hashes in any order, the content sits under the strongest algorithm (the reference's convention, and the
+    library's) — then read through the library by key and by address."""
+    for _ in range(n):
+        key = rng.choice(SMALL_KEYS + ["ék", "k\U0001F600"])
+        data = rand_bytes(rng, rng.choice([0, 1, 5, 40, 300]))
+        algos = rng.sample(STRENGTH, rng.choice([1, 1, 2, 2, 3]))
+        hs = [hashes.sri(a, data) for a in algos]
+        order = list(hs); rng.shuffle(order)
+        integ = " ".join(order)
+        strongest = hashes.sri(min(algos, key=STRENGTH.index), data)
+        obj = {"key": key, "integrity": integ, "time": rng.choice([7, 2**70 + 1]), "size": len(data),
+               "metadata": rng.choice(METAS), "raw_metadata": None}
+        bloc = ref.loc_c(ref.bucket_rel(key.encode()))
+        cloc = ref.loc_c(ref.content_rel(strongest))
+        prog = [{"op": "damage", "kind": "mkdir", "loc": bloc.rsplit("/", 1)[0]},
+                {"op": "damage", "kind": "set", "loc": bloc, "data": ref.record_bytes(_spell(rng, obj).encode()).hex()},
+                {"op": "damage", "kind": "mkdir", "loc": cloc.rsplit("/", 1)[0]},
+                {"op": "damage", "kind": "set", "loc": cloc, "data": data.hex()}]
+        for fl in FLS[flavour]:
+            prog += [{"op": "find", "fl": fl, "key": kx(key)}, {"op": "read", "fl": fl, "key": kx(key)},
+                     {"op": "read_hash", "fl": fl, "sri": integ}, {"op": "exists", "fl": fl, "sri": integ}]
+        prog += [{"op": "copy", "fl": "sync", "by": "key", "checked": True, "key": kx(key), "to": "out"},
+                 {"op": "ropen", "fl": pick_fl(rng, flavour), "r": 1, "key": kx(key)}, {"op": "rall", "r": 1}, {"op": "rcheck", "r": 1},
+                 {"op": "refcheck", "key": kx(key)}, {"op": "list"}]
+        # the library re-writes the same data under another key: same address, no second copy
+        prog += [{"op": "write", "fl": pick_fl(rng, flavour), "key": kx(key + "2"), "data": data.hex(), "algo": min(algos, key=STRENGTH.index)},
+                 {"op": "read", "fl": "sync", "key": kx(key)}, {"op": "refcheck", "key": kx(key + "2")}]
+        yield prog
